@@ -551,3 +551,35 @@ func (*repoStatSvc) RepoStat(ctx context.Context, in struct{}, out *api.IPFSRepo
 }
 
 var _ = ipfscluster.RPCClosed
+
+// ---------- scenario 6: Shutdown right after (or while) the peer becomes ready ----------
+
+func init() {
+	register("cluster-ready-vs-shutdown", 2, 3, func(t *testing.T) *e1.Exec {
+		ctx := context.Background()
+		_, hosts := clus.NewMocknet(ctx, 0, 1)
+		sh := clus.NewShared([]peer.ID{hosts[0].ID()})
+		cons := clus.NewMemConsensusNotReady(hosts[0].ID(), sh)
+		tcfg := &stateless.Config{}
+		tcfg.Default()
+		tcfg.ConcurrentPins = 1 // fewer idle workers = fewer irrelevant scheduling points
+		tr := stateless.New(tcfg, hosts[0].ID(), "p0", cons.State)
+		p, err := clus.NewPeer(ctx, &clus.PeerParts{Host: hosts[0], Consensus: cons, Shared: sh, Tracker: tr})
+		if err != nil {
+			t.Fatal(err)
+		}
+		quiesce()
+		shut := false
+		return &e1.Exec{
+			Threads: map[string]func(){
+				"T0": func() { cons.MarkReady() },
+				"T1": func() { <-p.C.Ready(); p.C.Shutdown(ctx); shut = true },
+			},
+			After: func(runErr error) (string, []e1.Finding) {
+				quiesce()
+				return fmt.Sprintf("shutdown-returned=%v", shut), nil
+			},
+			Teardown: func() { p.Stop(); hosts[0].Close() },
+		}
+	})
+}
